@@ -1,5 +1,18 @@
+#[cfg(not(ruler_verif))]
 use std::thread;
+#[cfg(ruler_verif)]
+use crate::verif::sched::thread;
+#[cfg(not(ruler_verif))]
 use std::sync::mpsc::
+{
+    self,
+    Sender,
+    Receiver,
+    SendError,
+    RecvError,
+};
+#[cfg(ruler_verif)]
+use crate::verif::sched::mpsc::
 {
     self,
     Sender,
